@@ -1,6 +1,7 @@
 (* C13 — every persisted/wire value round-trips; size bounds hold.
    Statements only: each theorem is closed by [exact <lemma>]; proofs live in Proofs/. *)
-From DB Require Import Base.Bytes Base.CRC32 Model.CodecEntry Proofs.CodecEntry Model.Frame Proofs.Frame.
+From DB Require Import Base.Bytes Base.CRC32 Model.CodecEntry Proofs.CodecEntry Model.Frame Proofs.Frame
+  Model.CodecProto Proofs.CodecProto Model.CodecUpdate Proofs.CodecUpdate.
 Open Scope N_scope.
 
 (* raftpb.Entry (colfer codec): decode (encode e) = e, consuming exactly the encoding *)
@@ -78,4 +79,75 @@ Example frame_witness :
   let f := write_message (mkHeader raft_type 0 0) [1; 2; 3] false in
   read_frame false (f ++ [9]) = Delivered (mkHeader raft_type 3 (crc32 [1; 2; 3])) [1; 2; 3] [9] /\
   read_frame false (firstn 22 f) = IOErr.
+Proof. vm_compute. split; reflexivity. Qed.
+
+(* ---------------------------------------------------------------------------
+   gogo-protobuf style codecs (Model/CodecProto.v).  T_encode = MarshalTo,
+   T_size = Size (a separate computation in the Go code), T_decode = Unmarshal into a
+   zero value.  Maps are association lists with distinct keys; equality of the decoded
+   value is equality of these lists (= equality of Go maps, the harness sorts by key). *)
+
+(* the generic wire format: parsing an encoded field list gives the field list back *)
+Theorem proto_fields_roundtrip : forall fs, Forall wf_field fs -> parse_all (enc_fields fs) = Some fs.
+Proof. exact parse_all_enc. Qed.
+Print Assumptions proto_fields_roundtrip.
+
+Theorem state_roundtrip : forall s, wf_state s -> state_decode (state_encode s) = Some s.
+Proof. exact state_roundtrip_proved. Qed.
+Print Assumptions state_roundtrip.
+Theorem state_size_exact : forall s, nlen (state_encode s) = state_size s.
+Proof. exact state_size_exact_proved. Qed.
+Print Assumptions state_size_exact.
+(* State.SizeUpperLimit() = 8 + 16*3 (generated) *)
+Theorem state_size_le_upper : forall s, state_size s <= state_size_upper.
+Proof. exact state_size_le_upper_proved. Qed.
+Print Assumptions state_size_le_upper.
+
+Theorem session_roundtrip : forall s, wf_session s -> session_decode (session_encode s) = Some s.
+Proof. exact session_roundtrip_proved. Qed.
+Print Assumptions session_roundtrip.
+Theorem session_size_exact : forall s, nlen (session_encode s) = session_size s.
+Proof. exact session_size_exact_proved. Qed.
+Print Assumptions session_size_exact.
+
+Theorem snapshotfile_roundtrip : forall s, wf_sf s -> sf_decode (sf_encode s) = Some s.
+Proof. exact sf_roundtrip_proved. Qed.
+Print Assumptions snapshotfile_roundtrip.
+Theorem snapshotfile_size_exact : forall s, nlen (sf_encode s) = sf_size s.
+Proof. exact sf_size_exact_proved. Qed.
+Print Assumptions snapshotfile_size_exact.
+
+Theorem membership_roundtrip : forall m, wf_mb m -> mb_decode (mb_encode m) = Some m.
+Proof. exact mb_roundtrip_proved. Qed.
+Print Assumptions membership_roundtrip.
+Theorem membership_size_exact : forall m, nlen (mb_encode m) = mb_size m.
+Proof. exact mb_size_exact_proved. Qed.
+Print Assumptions membership_size_exact.
+
+Theorem snapshot_roundtrip : forall s, wf_sn s -> sn_decode (sn_encode s) = Some s.
+Proof. exact sn_roundtrip_proved. Qed.
+Print Assumptions snapshot_roundtrip.
+Theorem snapshot_size_exact : forall s, nlen (sn_encode s) = sn_size s.
+Proof. exact sn_size_exact_proved. Qed.
+Print Assumptions snapshot_size_exact.
+
+(* ---------------------------------------------------------------------------
+   the Tan record form of Update (raftpb/update.go) *)
+Theorem update_roundtrip : forall u, wf_update u -> update_decode (update_encode u) = UOk u.
+Proof. exact update_roundtrip_proved. Qed.
+Print Assumptions update_roundtrip.
+
+(* MarshalTo never writes more than SizeUpperLimit(): a buffer of that size is not
+   overrun.  The constants 22, 56, 48 and 128 are regenerated from the source. *)
+Theorem update_size_le_upper : forall u, wf_update u -> nlen (update_encode u) <= update_size_upper u.
+Proof. exact update_size_le_upper_proved. Qed.
+Print Assumptions update_size_le_upper.
+
+(* non-vacuity: a membership with two addresses and a removed node, inside a snapshot,
+   inside an update with one entry, round-trips by computation *)
+Example update_witness :
+  let mb := mkMB 7 [(1, [97; 98]); (2 ^ 63, [])] [(5, true)] [] [(9, [255])] in
+  let sn := mkSN [47] 100 7 3 mb [mkSF [97] 5 6 None] (Some []) true 77 (-5) false 8 true in
+  let u := mkUpdate (2 ^ 64 - 1) 2 (mkState 1 2 3) [mkEntry 1 1 0 0 0 0 0 [170; 187]] sn in
+  update_decode (update_encode u) = UOk u /\ nlen (update_encode u) <=? update_size_upper u = true.
 Proof. vm_compute. split; reflexivity. Qed.
